@@ -473,6 +473,12 @@ func suiteC02(c *Ctx) []Suite {
 				if i%3 == 0 {
 					o.PVar = 0.2
 				}
+				if i%9 == 3 {
+					// nothing open but an ellipsis or two: such a message is not complete either
+					o.PVar, o.PEllipsis = 0, 0.6
+				} else if i%9 == 6 {
+					o.PEllipsis = 0.3
+				}
 				item := genItem(c.R, o)
 				m := genMsgDesc(c.R, item, 0)
 				m.HSMS = i%4 == 1 // also through the constructor that takes session id and system bytes
@@ -877,6 +883,40 @@ func suiteC13base(c *Ctx) []Suite {
 						res = fmt.Sprintf("an ASCII variable filled with %d characters (within the limit) is refused or does not encode", n)
 					}
 					out = append(out, Case{Detail: fmt.Sprintf("fill ASCII variable with %d characters nested=%v", n, nested), Oracle: res, Nontrivial: true, Tags: []string{"fill-at-limit"}})
+				}
+			}
+			// sizes declared in SML text reach the limit too: a variable declared with a bound in
+			// the upper half of the legal range takes values up to that bound and no others
+			for _, n := range []int{8388607, 8388608, 9000000, 16777215} {
+				for _, decl := range []string{"[%d]", "[1..%d]", "[%d..]"} {
+					text := fmt.Sprintf("S1F1 W H->E <A"+decl+" v>.", n)
+					out = append(out, Case{Op: smlOp(text), Decisive: true, Nontrivial: true, Tags: []string{"declared-size-near-limit"}}.fields("n err warn str"))
+					if n != 9000000 && c.Tier != "thorough" {
+						continue
+					}
+					res := ""
+					safely(func() {
+						r := parseSML(text)
+						if len(r.msgs) != 1 {
+							res = fmt.Sprintf("%s is not accepted: %v", text, r.errs)
+							return
+						}
+						fill := func(k int) (ok bool) {
+							pan, _ := safely(func() {
+								m := r.msgs[0].FillVariables(map[string]interface{}{"v": string(bytes.Repeat([]byte{'q'}, k))})
+								ok = len(m.Variables()) == 0
+							})
+							return ok && !pan
+						}
+						if !fill(n) {
+							res = fmt.Sprintf("%s: a value of %d characters is refused", text, n)
+						} else if decl != "[1..%d]" && fill(n-1) {
+							res = fmt.Sprintf("%s: a value of %d characters is accepted", text, n-1)
+						} else if decl != "[%d..]" && fill(n+1) {
+							res = fmt.Sprintf("%s: a value of %d characters is accepted", text, n+1)
+						}
+					})
+					out = append(out, Case{Detail: "fill at the declared bound: " + text, Oracle: res, Nontrivial: true, Tags: []string{"declared-size-filled"}})
 				}
 			}
 			// the largest constructible item of the wide numeric formats, and one element more
